@@ -5,10 +5,10 @@ PROP = {
     "note": "Trusted: Lean kernel (axioms propext/Quot.sound at most), the harness/driver comparison, rustc. The model is hand-written; "
             "what is verified about the code is theorem AND exhaustive agreement of model and code on all 24 576 transitions.",
     "technique": "Lean 4 proof by kernel enumeration (decide +kernel) + exhaustive model/code correspondence",
-    "streams": [{"name": "c17"}],
+    "streams": [{"name": "c17"}, {"name": "c17.seq"}],
     "modules": ["GbVerif.Model.Joypad", "GbVerif.Spec.Joypad", "GbVerif.Proofs.NatBits", "GbVerif.Proofs.Enum"],
     "exhaustive": True,
     "rule": "all 16x16 button nibbles x 4 selections x (8 presses + 8 releases + 8 select bytes) through the public "
-            "Joypad API; non-trivial = P1 changed or the interrupt was raised",
+            "Joypad API; non-trivial = P1 changed or the interrupt was raised; c17.seq: all 1024 reachable states x all 20x20 PAIRS of actions with the interrupt collected once after both (a pending request must survive a later action)",
     "assumptions": ["action_state/direction_state only ever hold their low nibble (invariant proved: inv_reachable)"],
 }
